@@ -37,7 +37,7 @@ func (wr *worldRun) run(c *sim.Ctx) *world.World {
 	for i := 0; i < wr.steps; i++ {
 		w.Step()
 	}
-	if wr.final != nil {
+	if wr.final != nil && w.Snap != nil && len(w.Snap.Tables) > 0 {
 		wr.final(c, w)
 	}
 	return w
